@@ -9,7 +9,8 @@ from vf.stepcheck import make, warm  # noqa: E402
 from vf.sym import Ob  # noqa: E402
 
 QUICK = [("K1", "with", "n", True), ("K2", "with_num_index", None, True), ("K3", "update_kw", "inner", True)]
-THOROUGH = QUICK + [("K1", "update2", "n", True), ("K1", "transform", "x", True), ("K1", "reset", "n", True), ("K2", "with_num", None, True), ("K2", "update_num", None, True), ("K2", "transform_num", None, True), ("K2", "without_num", None, True), ("K2", "with_nums", None, True), ("K2", "with_opt", None, True), ("K2", "update2_cols", None, True), ("K2S", "with_val", None, True), ("K2S", "transform_val", None, True), ("K3", "with_kw", "inner", True), ("K3", "with_obj_kw", "inner", True), ("K3", "transform_kw", "inner2", True), ("K3", "update_top", "inner", True), ("K3", "reset", "inner2", True), ("K5", "with_pw_str", None, True), ("K5", "with_scores", None, True)]
+# (K2.update2_cols was tried: > 5 000 paths per shard, not exhausted within 30 min - left out rather than reported as covered)
+THOROUGH = QUICK + [("K1", "update2", "n", True), ("K1", "transform", "x", True), ("K1", "reset", "n", True), ("K2", "with_num", None, True), ("K2", "update_num", None, True), ("K2", "transform_num", None, True), ("K2", "without_num", None, True), ("K2", "with_nums", None, True), ("K2", "with_opt", None, True), ("K2S", "with_val", None, True), ("K2S", "transform_val", None, True), ("K3", "with_kw", "inner", True), ("K3", "with_obj_kw", "inner", True), ("K3", "transform_kw", "inner2", True), ("K3", "update_top", "inner", True), ("K3", "reset", "inner2", True), ("K5", "with_pw_str", None, True), ("K5", "with_scores", None, True)]
 
 
 def obligations(tier):
